@@ -85,6 +85,11 @@ Lemma match_snoc {A B} (r : list A) x (a b : B) :
   match r ++ [x] with [] => a | _ :: _ => b end = b.
 Proof. destruct r; reflexivity. Qed.
 
+(* ---------------------------------------------------------------- the fuel of the model, as functions of the circuit *)
+Definition size_fuel (c : circuit) : nat := S (size c).                           (* top_sort, the slice loop *)
+Definition outputs_fuel (c : circuit) : nat := eval_fuel c (outputs c).           (* evaluate_circuit(outputs=None) *)
+Definition at_fuel (c : circuit) : nat := 2 * (1 + sum_arity c) + 1.              (* evaluate_circuit(outputs=[o]) *)
+
 (* ---------------------------------------------------------------- size / input_size *)
 Lemma gen_size_eq c : gen_size c = size c.
 Proof. reflexivity. Qed.
@@ -253,9 +258,9 @@ Proof. vm_compute. discriminate. Qed.
 
 (* ---------------------------------------------------------------- __copy__ *)
 Lemma gen_copy_eq c :
-  NoDup (dkeys (gates c)) -> gen___copy__ (S (size c)) c = copy_circuit c.
+  NoDup (dkeys (gates c)) -> gen___copy__ size_fuel c = copy_circuit c.
 Proof.
-  intros Hnd. unfold gen___copy__, copy_circuit.
+  intros Hnd. unfold gen___copy__, copy_circuit, size_fuel.
   rewrite (foldM_gen_top_sort_k c true (fun n l g => do n' <- gen_emplace_gate n l (gtyp g) (gops g); Ok n')
                                 empty_circuit _ Hnd).
   apply bind_ext. intros order.
@@ -297,9 +302,9 @@ Proof.
 Qed.
 
 Lemma gen_evaluate_full_circuit_eq c a :
-  NoDup (dkeys (gates c)) -> gen_evaluate_full_circuit (S (size c)) c a = evaluate_full_circuit c a.
+  NoDup (dkeys (gates c)) -> gen_evaluate_full_circuit size_fuel c a = evaluate_full_circuit c a.
 Proof.
-  intros Hnd. unfold gen_evaluate_full_circuit, evaluate_full_circuit.
+  intros Hnd. unfold gen_evaluate_full_circuit, evaluate_full_circuit, size_fuel.
   rewrite init_assignment_loop. cbn [bind].
   rewrite (foldM_gen_top_sort_k c true
              (fun (d : assignment) l g =>
